@@ -98,6 +98,7 @@ Print Assumptions C02sem_K_chain.
 Theorem C02sem_K_chain_step : forall rows cols snaps prev r,
   reachable prev -> sb_off (cur prev) = 0 -> grows (cur prev) = rows -> gcols (cur prev) = cols ->
   chain_K rows cols prev snaps ->
+  pend r = [] ->   (* the receiving parser holds no bytes of an unfinished utf-8 character back *)
   ground (vt r) -> shows prev (scr r) (live (cur prev)) -> same_modes prev (scr r) ->
   exists r', diff_chain r prev snaps = Ok r' /\ log r' = log r /\ ground (vt r') /\
              shows (last_snap prev snaps) (scr r') (live (cur (last_snap prev snaps))) /\
